@@ -1,6 +1,8 @@
 import AmqModel.Driver.SmootherEngine
 import AmqModel.Driver.SlotsEngine
 import AmqModel.Driver.FrameBufEngine
+import AmqModel.Driver.TuneEngine
+import AmqModel.Driver.UrlEngine
 namespace AmqModel.Driver
 
 def engineByName : String → Option Engine
@@ -10,6 +12,9 @@ def engineByName : String → Option Engine
   | "slots" => some slotsEngine
   | "slots-legacy" => some slotsLegacyEngine
   | "framebuf" => some frameBufEngine
+  | "tune" => some tuneEngine
+  | "tune-spec" => some tuneSpecEngine
+  | "url" => some urlEngine
   | _ => none
 
 end AmqModel.Driver
